@@ -11,3 +11,6 @@ Proof.
   revert b; induction a as [|x t IH]; intros [|y u]; cbn [beq]; try discriminate; [reflexivity|].
   intros H. apply andb_true_iff in H as [H1 H2]. apply Ascii.eqb_eq in H1. apply IH in H2. congruence.
 Qed.
+
+Lemma frev_rev {A} (x : list A) : frev x = rev x.
+Proof. unfold frev. now rewrite rev_append_rev, app_nil_r. Qed.
